@@ -55,6 +55,8 @@ void hk_dead_end(void);			/* hk_quiescent returned 0: harness reports + ends the
 void hk_write(int fd, const void *buf, size_t n, long ret, int err, int fl_nonblock);
 void hk_read(int fd, const void *buf, size_t n, long ret, int err);
 void hk_close(int fd);
+void hk_read_pre(int fd);		/* just before the real read(2) */
+void hk_write_pre(int fd);	/* just before the real write(2) */
 void hk_splice(int fdin, int fdout, size_t len, long ret, int err);
 void hk_wait4(pid_t pid_arg, int options, pid_t ret, int status);
 void hk_kill(pid_t pid, int sig, int ret, int err);
